@@ -121,3 +121,8 @@ const Family* find_family(const std::string& name);
 void register_family(const Family& f);
 
 RunOutcome execute_plan(const RunPlan& p, const std::string& root);
+
+// which families decide which property, and with how many runs per tier
+struct CheckPart { std::string family; int quick; int thorough; };
+struct CheckDef { std::string prop; std::string level; std::vector<CheckPart> parts; std::string rule; };
+std::vector<CheckDef>& check_table();
